@@ -958,6 +958,7 @@ pub fn exec_fb(case: &PCase, sample_closed: bool, fb: &[i64]) -> Trace {
     if let Some(s) = &sub {
       tr.closed.push((usize::MAX, s.is_closed()));
     }
+    tr.status_after_step.push(lock!(env.statuses).iter().map(|s| (s.is_completed(), s.error_occur())).collect());
   }
   let uses_guard = case.script.iter().any(|s| matches!(s, Step::DropGuard));
   if uses_guard {
@@ -1009,6 +1010,7 @@ pub fn exec_fb(case: &PCase, sample_closed: bool, fb: &[i64]) -> Trace {
       if let Some(s) = &sub {
         tr.closed.push((k, s.is_closed()));
       }
+      tr.status_after_step.push(lock!(env.statuses).iter().map(|s| (s.is_completed(), s.error_occur())).collect());
     }
     tr.finalize_after_step.push(lock!(env.counters).finalize_calls);
   }
